@@ -137,3 +137,249 @@ pub fn replay() -> Vec<(String, String)>
 {
     compare().1.into_iter().map(|(core, name, detail)| (format!("{}:{}", if core { "C10:real-file-system-differs-from-model" } else { "CONFORM-HARNESS" }, name.replace(' ', "-")), detail)).collect()
 }
+
+// ---------------------------------------------------------------- end-to-end differential
+
+/* Whole generated scenarios are executed twice: in the simulator (SimSystem + stub command
+   interpreter + serial schedule) and for real (RealSystem + /bin/sh running the same scripts
+   translated to shell, real threads) in a scratch directory, and after every operation the two
+   workspaces (bytes and executable bit of every file), the cached contents, the verdict and the
+   status lines are compared.  Scenarios avoid equal contents, so the outcome does not depend on
+   the (uncontrolled) real schedule.  A short real sleep separates user actions from invocations
+   so that distinct writes get distinct real modification times (the property's assumption). */
+mod real_run
+{
+    use super::*;
+    use std::fs;
+    use std::os::unix::fs::PermissionsExt;
+    use std::path::Path;
+    use crate::build::{build, clean, BuildParams};
+    use super::super::super::hist::{Runner, cache_dir, table_path, history_dir};
+    use super::super::super::scen::{DirPart, RULER_DIR};
+    use super::super::super::simsys::{RecPrinter, Printed};
+
+    fn walk(dir : &Path, prefix : &str, out : &mut BTreeMap<String, (Vec<u8>, bool)>)
+    {
+        if let Ok(rd) = fs::read_dir(dir)
+        {
+            for e in rd.flatten()
+            {
+                let name = e.file_name().to_string_lossy().to_string();
+                let rel = if prefix == "" { name.clone() } else { format!("{}/{}", prefix, name) };
+                let p = e.path();
+                if p.is_dir() { walk(&p, &rel, out); }
+                else if let Ok(data) = fs::read(&p)
+                {
+                    let exec = fs::metadata(&p).map(|m| m.permissions().mode() & 0o111 != 0).unwrap_or(false);
+                    out.insert(rel, (data, exec));
+                }
+            }
+        }
+    }
+
+    fn pause() { std::thread::sleep(std::time::Duration::from_millis(12)); }
+
+    fn write_rules(case : &Case, rules : &[SRule])
+    {
+        let n = case.rule_files % 10;
+        let mid = if n >= 2 { (rules.len() + 1) / 2 } else { rules.len() };
+        let text = |rs : &[SRule]| rs.iter().map(|r| r.render_shell()).collect::<Vec<String>>().join("\n");
+        let _ = fs::write("build.rules", text(&rules[..mid]));
+        if n >= 2 { let _ = fs::write("more.rules", text(&rules[mid..])); }
+    }
+
+    fn banners(lines : &[Printed]) -> Vec<(String, String)>
+    {
+        let mut v : Vec<(String, String)> = lines.iter().filter_map(|p| match p { Printed::Banner(k, path) => Some((path.clone(), k.clone())), _ => None }).collect();
+        v.sort();
+        v
+    }
+
+    /* returns (operations compared, first disagreement) */
+    pub fn differential(case : &Case, dir : &str) -> (usize, Option<String>)
+    {
+        let _ = fs::remove_dir_all(dir);
+        fs::create_dir_all(dir).unwrap();
+        let back = std::env::current_dir().unwrap();
+        std::env::set_current_dir(dir).unwrap();
+        let r = run(case);
+        std::env::set_current_dir(back).unwrap();
+        let _ = fs::remove_dir_all(dir);
+        r
+    }
+
+    fn run(case : &Case) -> (usize, Option<String>)
+    {
+        let mut sim = Runner::new(case);
+        for d in case.dirs.iter() { let _ = fs::create_dir_all(d); }
+        for (p, c) in case.files.iter() { let _ = fs::write(p, c); }
+        let mut rules = case.rules.clone();
+        write_rules(case, &rules);
+        let mut compared = 0;
+
+        for (i, op) in case.ops.iter().enumerate()
+        {
+            pause();
+            let mut real_verdict : Option<(String, Vec<(String, String)>)> = None;
+            match op
+            {
+                Op::Write{ path, content } => { let _ = fs::write(path, content); },
+                Op::Delete{ path } => { let _ = fs::remove_file(path); },
+                Op::Chmod{ path, exec } =>
+                {
+                    if let Ok(m) = fs::metadata(path)
+                    {
+                        let mode = m.permissions().mode();
+                        let _ = fs::set_permissions(path, fs::Permissions::from_mode(if *exec { mode | 0o111 } else { mode & !0o111 }));
+                    }
+                },
+                Op::Move{ from, to } => { let _ = fs::rename(from, to); },
+                Op::SetRules{ rules : r } => { rules = r.clone(); write_rules(case, &rules); },
+                Op::DeleteCacheEntry{ pick } =>
+                {
+                    let mut names : Vec<String> = fs::read_dir(cache_dir()).map(|rd| rd.flatten().map(|e| e.file_name().to_string_lossy().to_string()).collect()).unwrap_or(vec![]);
+                    names.sort();
+                    if names.len() > 0 { let _ = fs::remove_file(format!("{}/{}", cache_dir(), names[*pick as usize % names.len()])); }
+                },
+                Op::DeleteCacheContent{ content } =>
+                {
+                    if let Ok(rd) = fs::read_dir(cache_dir())
+                    {
+                        for e in rd.flatten() { if fs::read(e.path()).map(|c| c == *content).unwrap_or(false) { let _ = fs::remove_file(e.path()); } }
+                    }
+                },
+                Op::DeleteRulerDir{ part } => match part
+                {
+                    DirPart::Whole => { let _ = fs::remove_dir_all(RULER_DIR); },
+                    DirPart::Cache => { let _ = fs::remove_dir_all(cache_dir()); },
+                    DirPart::History => { let _ = fs::remove_dir_all(history_dir()); },
+                    DirPart::HistoryFile(pick) =>
+                    {
+                        let mut names : Vec<String> = fs::read_dir(history_dir()).map(|rd| rd.flatten().map(|e| e.file_name().to_string_lossy().to_string()).collect()).unwrap_or(vec![]);
+                        names.sort();
+                        // rule identities (hence history file names) differ between the two runs (the command
+                        // text does): a positional pick would not name the same rule; skip in both
+                        let _ = (pick, names);
+                    },
+                    DirPart::Table => { let _ = fs::remove_file(table_path()); },
+                },
+                Op::DamageState{..} => {},
+                Op::Build{ goal, .. } =>
+                {
+                    let mut printer = RecPrinter::new();
+                    let r = build(RealSystem::new(), &mut printer, BuildParams::from_all(RULER_DIR.to_string(), case.rulefile_paths(), None, goal.clone()));
+                    real_verdict = Some((match r { Ok(()) => "Ok".to_string(), Err(e) => format!("Err({})", first_word(&format!("{:?}", e))) }, banners(&printer.lines)));
+                },
+                Op::Clean{ goal, .. } =>
+                {
+                    let r = clean(RealSystem::new(), RULER_DIR, case.rulefile_paths(), goal.clone());
+                    real_verdict = Some((match r { Ok(()) => "Ok".to_string(), Err(e) => format!("Err({})", first_word(&format!("{:?}", e))) }, vec![]));
+                },
+            }
+            pause();
+
+            // the same operation in the simulator
+            let skip = match op { Op::DeleteRulerDir{ part : DirPart::HistoryFile(_) } | Op::DamageState{..} => true, _ => false };
+            let sim_inv = if skip { sim.next_op += 1; None } else { sim.step() };
+            if let Some(inv) = &sim_inv { sim.absorb(inv); }
+
+            // compare
+            let mut real_ws = BTreeMap::new();
+            walk(Path::new("."), "", &mut real_ws);
+            let real_cache : BTreeSet<Vec<u8>> = real_ws.iter().filter(|(p, _)| p.starts_with(&format!("{}/", cache_dir()))).map(|(_, (c, _))| c.clone()).collect();
+            let real_files : BTreeMap<String, (Vec<u8>, bool)> = real_ws.into_iter().filter(|(p, _)| !p.starts_with(&format!("{}/", RULER_DIR)) && !p.ends_with(".rules")).collect();
+            let disk = sim.world.snapshot().0;
+            let sim_files : BTreeMap<String, (Vec<u8>, bool)> = disk.workspace(RULER_DIR).into_iter().filter(|(p, _)| !p.ends_with(".rules")).map(|(p, (c, x))| (p, ((*c).clone(), x))).collect();
+            let sim_cache : BTreeSet<Vec<u8>> = super::super::super::hist::cache_contents(&disk).into_iter().map(|(_, c)| (*c).clone()).collect();
+            compared += 1;
+            if real_files != sim_files
+            {
+                let mut diff = vec![];
+                for (p, v) in real_files.iter() { if sim_files.get(p) != Some(v) { diff.push(format!("{}: real {:?}/x={} sim {:?}", p, String::from_utf8_lossy(&v.0), v.1, sim_files.get(p).map(|(c, x)| format!("{:?}/x={}", String::from_utf8_lossy(c), x)))); } }
+                for p in sim_files.keys() { if !real_files.contains_key(p) { diff.push(format!("{}: only in the simulator", p)); } }
+                return (compared, Some(format!("after op {} ({}): workspace differs: {}", i, op.kind(), diff.join("; "))));
+            }
+            if real_cache != sim_cache
+            {
+                return (compared, Some(format!("after op {} ({}): cached contents differ: real {:?} sim {:?}", i, op.kind(),
+                    real_cache.iter().map(|c| String::from_utf8_lossy(c).to_string()).collect::<Vec<_>>(), sim_cache.iter().map(|c| String::from_utf8_lossy(c).to_string()).collect::<Vec<_>>())));
+            }
+            if let (Some((rv, rb)), Some(inv)) = (&real_verdict, &sim_inv)
+            {
+                let sv = match &inv.res.verdict { Verdict::Ok => "Ok".to_string(), Verdict::WorkErrors(_) => "Err(WorkErrors)".to_string(), Verdict::OtherError(e) => format!("Err({})", first_word(e)), other => other.short() };
+                if *rv != sv
+                {
+                    return (compared, Some(format!("op {} ({}): verdict differs: real {} sim {}", i, op.kind(), rv, sv)));
+                }
+                if inv.is_build && *rb != banners(&inv.res.printed)
+                {
+                    return (compared, Some(format!("op {} ({}): status lines differ: real {:?} sim {:?}", i, op.kind(), rb, banners(&inv.res.printed))));
+                }
+            }
+        }
+        (compared, None)
+    }
+
+    fn first_word(s : &str) -> String
+    {
+        let end = s.find(|c : char| !(c.is_alphanumeric() || c == '_')).unwrap_or(s.len());
+        s[..end].to_string()
+    }
+}
+
+pub fn run_differential(stats : &mut Stats, scenarios : u64, seed : u64) -> Vec<Found>
+{
+    let mut found = vec![];
+    for k in 0..scenarios
+    {
+        let s = mix64(seed ^ mix64(k + 0xd1ff));
+        let mut rng = Rng::derive(s, 11);
+        let mut g = GenCfg::base(false);
+        g.max_rules = rng.range(1, 5);
+        g.max_ops = 6;
+        g.min_ops = 3;
+        g.failing = rng.chance(1, 5);
+        g.missing_leaves = rng.chance(1, 5);
+        g.shared_pool = false;          // unique contents: the outcome cannot depend on the real schedule
+        g.empty_salts = false;
+        g.twins = false;
+        g.cleans = 25;
+        g.exec = true;
+        g.moves = false;
+        g.policy_sched = Some(Strategy::Serial);
+        let mut case = Gen::new(s, g).case();
+        // the generator's salts may be empty (copies): make every emitted content unique
+        let mut n = 0;
+        let mut fix = |rules : &mut Vec<SRule>| for r in rules.iter_mut() { for l in r.lines.iter_mut() { if let Line::Emit{ salt, target, .. } = l { n += 1; *salt = format!("{}{}", target.replace('/', "_"), salt); } } };
+        fix(&mut case.rules);
+        for op in case.ops.iter_mut() { if let Op::SetRules{ rules } = op { fix(rules); } }
+        let (compared, diff) = real_run::differential(&case, &format!("scenario-{}", k));
+        stats.add("conformance.end_to_end_operations_compared", compared as u64);
+        stats.inc("conformance.end_to_end_scenarios");
+        if k < 2 { stats.sample(case.to_j().set("executed", J::s("on RealSystem with /bin/sh and in the simulator; compared after every operation"))); }
+        if let Some(d) = diff
+        {
+            if found.len() == 0
+            {
+                found.push(Found
+                {
+                    prop : "C10".to_string(),
+                    sig : "C10:real-file-system-differs-from-model:end-to-end".to_string(),
+                    detail : format!("scenario {}: {}", k, d),
+                    explain : case.to_j(),
+                    replay : Replay::ConformanceCase{ case : case.clone() },
+                });
+            }
+        }
+    }
+    found
+}
+
+pub fn replay_case(case : &Case) -> Vec<(String, String)>
+{
+    match real_run::differential(case, "replay-scenario").1
+    {
+        Some(d) => vec![("C10:real-file-system-differs-from-model:end-to-end".to_string(), d)],
+        None => vec![],
+    }
+}
